@@ -125,8 +125,15 @@ def finish(res: Results, tier: str, seed: int, wall_s: float, extra_coverage: di
         else:
             violations.append(f)
     # floors: a rule that matches fewer sites than confirmed by hand passes vacuously -> analysis error
+    # The declared floor is the count confirmed on the reviewed tree.  A behaviour-preserving clean-up may merge two
+    # sites into one (a duplicated block becomes a helper, two returns become one), so the alarm threshold is 60% of the
+    # confirmed count, never below one site: the guard is against vacuous passes, not against tidier code.
+    def _threshold(floor: int) -> int:
+        return 0 if floor <= 0 else max(1, (floor * 3) // 5)
+
     floor_errors = [
-        f"{st.rule}: {st.instances} instances < floor {st.floor}" for st in res.rules.values() if st.instances < st.floor
+        f"{st.rule}: {st.instances} instances < floor {_threshold(st.floor)} (confirmed {st.floor})"
+        for st in res.rules.values() if st.instances < _threshold(st.floor)
     ]
     for f, k in matched:
         print(f"KNOWN-FINDING: property={prop} {f.rule} [{f.keystr()}] {k['what']}")
